@@ -287,6 +287,8 @@ qb_ipcs_response_send(struct qb_ipcs_connection *c, const void *data,
 
 	if (c == NULL) {
 		return -EINVAL;
+	} else if (size > c->response.max_msg_size) {
+		return -EMSGSIZE;
 	}
 	qb_ipcs_connection_ref(c);
 	res = c->service->funcs.send(&c->response, data, size);
@@ -312,9 +314,17 @@ qb_ipcs_response_sendv(struct qb_ipcs_connection * c, const struct iovec * iov,
 		       size_t iov_len)
 {
 	ssize_t res;
+	size_t total_size = 0;
+	size_t i;
 
 	if (c == NULL) {
 		return -EINVAL;
+	}
+	for (i = 0; i < iov_len; i++) {
+		total_size += iov[i].iov_len;
+	}
+	if (total_size > c->response.max_msg_size) {
+		return -EMSGSIZE;
 	}
 	qb_ipcs_connection_ref(c);
 	res = c->service->funcs.sendv(&c->response, iov, iov_len);
@@ -436,9 +446,17 @@ qb_ipcs_event_sendv(struct qb_ipcs_connection * c,
 {
 	ssize_t res;
 	ssize_t resn;
+	size_t total_size = 0;
+	size_t i;
 
 	if (c == NULL) {
 		return -EINVAL;
+	}
+	for (i = 0; i < iov_len; i++) {
+		total_size += iov[i].iov_len;
+	}
+	if (total_size > c->event.max_msg_size) {
+		return -EMSGSIZE;
 	}
 	qb_ipcs_connection_ref(c);
 
